@@ -561,7 +561,7 @@ def main(ctx):
         rec.ok(case, outcome="array:%s" % dt, nontrivial=True, calls=calls)
 
     au = [(d, seed, dt) for d in ctx.pick((0, 1, 2, 5, 10, 20), tuple(range(0, 25))) for dt in ("f8", "f4")]
-    ctx.lattice("ids-whole-array", au, one_id_array, bounds=dict(depths=sorted(set(u[0] for u in au))))
+    ctx.lattice("ids-whole-array", au, one_id_array, envstrict=True, bounds=dict(depths=sorted(set(u[0] for u in au))))
 
     # ============================================================ intersect
     CENTRES = [(10.0, 20.0), (0.0, 0.0), (0.0, 90.0), (123.0, -90.0), (359.9999999, 10.0), (90.0, 0.0),
@@ -919,7 +919,7 @@ def main(ctx):
                     continue
                 for (s1, s2) in (("local", "local"), ("anchor", "edges"), ("all", "local")):
                     bunits.append((depth, bins, sc, s1, s2, "native", seed))
-    ctx.lattice("bincount", bunits, one_bincount,
+    ctx.lattice("bincount", bunits, one_bincount, envstrict=True,
                 bounds=dict(bins=BINS, deep_bins=DEEPBINS, depths=sorted(set(u[0] for u in bunits)), scales=[str(s) for s in SCALES], set_pairs=ctx.pick(PAIRS_Q, PAIRS_T),
                             routes=["internal", "ids", "ids+rev", "ids+rev+minmax", "ids+numpy-rev+minmax",
                                     "getbins=False"], forms=["native", "swapped", "strided", "list", "2d", "scalar1"]))
@@ -965,7 +965,7 @@ def main(ctx):
 
     runits = [(d, BINS[1], w, seed) for d in (3, 6)
               for w in ("rev>i8", "rev-i4", "rev-f8", "rev-strided", "rev-list", "ids>i8", "ids-strided", "both>i8")]
-    ctx.lattice("bincount-supplied-forms", runits, one_revform,
+    ctx.lattice("bincount-supplied-forms", runits, one_revform, envstrict=True,
                 bounds=dict(forms=sorted(set(u[2] for u in runits)), depths=[3, 6]))
 
     # ======================================= one object, several calls (E2)
